@@ -38,6 +38,9 @@ ALSO = {
     "C07-batch-fallback-drops-reference": ["C09"], "C09-ucs2-boundary-mask-low-surrogate": ["C14", "C07"], "C14-cutpoints-grid-begin": ["C07", "C06"],
     "C05-unpack-last-group-hoisted": ["C08", "C06"], "C07-refuse-by-naive-count": ["C14"],
     "C10-enquirelink-embedded-resp": ["C12", "C13"], "C15-respauth-append-status-slice": ["C12"],
+    "C06-gb18030-lead-0x81-single": ["C14"], "C16-parseoptions-end-u16-sum": ["C03"], "C04-blocked-prefill-body-vs-total": [], "C02-cmpp20-submit-length-tail-u8": ["C01", "C11"],
+    "C14-boundary-rule-picked-before-fallback": ["C06"], "C03-cmpp20-dest-bulk-read-u8": ["C01"], "C11-tlv-buffer-clamped-to-remaining": ["C16", "C03"],
+    "C12-reader-stages-in-pooled-buffer": ["C13", "C20"],
     "C12-reader-scratch-view": ["C13"], "C13-shared-sorter": ["C09"], "C07-total-from-size": ["C06"], "C03-cmpp20-dest-block-u8": ["C01"],
 }
 
